@@ -131,3 +131,39 @@ func init() {
 	regSimple(D+"Nanoseconds", func(ex *Exec, a []*Term) *Term { return a[0] })
 	regSimple(D+"Milliseconds", func(ex *Exec, a []*Term) *Term { return ex.truncDiv(a[0], ex.f.Int(1000000)) })
 }
+
+// utils.Deserialize(raw, *uint64): the value is a function of the bytes (little-endian decoding; trusted)
+func (ex *Exec) deser64(st *State, raw *Term) *Term {
+	f := ex.f
+	e := ex.comp(st, "E.uint8", ArraySort(SInt, ArraySort(SInt, SInt)))
+	arr := f.Select(e, f.Acc("Slice", "ref", raw))
+	r := f.App("utils.deserialize_u64_", SInt, arr, f.Acc("Slice", "off", raw), f.Acc("Slice", "len", raw))
+	return r
+}
+
+func init() {
+	reg("github.com/lavanet/lava/v5/utils.Deserialize", func(fr *Frame, st *State, c *ssa.CallCommon, a []*Term) ([]*Term, bool) {
+		ex := fr.ex
+		// the only type Deserialize accepts is *uint64 (anything else panics), whatever the static type at the call site
+		var elem types.Type = types.Typ[types.Uint64]
+		if mi, ok := c.Args[1].(*ssa.MakeInterface); ok {
+			pt, ok := types.Unalias(mi.X.Type()).Underlying().(*types.Pointer)
+			if !ok {
+				return nil, false
+			}
+			b, ok := types.Unalias(pt.Elem()).Underlying().(*types.Basic)
+			if !ok || b.Kind() != types.Uint64 {
+				return nil, false
+			}
+			elem = pt.Elem()
+		}
+		pt := types.NewPointer(elem)
+		v := ex.deser64(st, a[0])
+		ex.assume(st, ex.tm.WellTyped(v, pt.Elem(), 1))
+		ex.store(st, a[1], pt.Elem(), v)
+		return nil, true
+	}, "P.uint64")
+	extraSpecFuncs["deser64"] = func(ctx *EvalCtx, args []CV) CV {
+		return CV{ctx.ex.deser64(ctx.state(), args[0].t), nil}
+	}
+}
